@@ -234,6 +234,7 @@ def _is_set_expr(cx, f, e) -> bool:
 def _premises(cx):
     from .common import include_premises
     keep = ('fresh-model-per-run', 'one-score-of-own-model-per-repetition', 'no-module-level-state', 'work-list-is-product-times-repetitions',
-            'evaluates-the-built-product-list')
-    include_premises(cx, ['C15', 'C16'], 'a run is reproducible from its seed only if every run and repetition builds its own model',
+            'evaluates-the-built-product-list', 'pool-arm-is-an-ordered-map')
+    include_premises(cx, ['C15', 'C16'], 'a run is reproducible from its seed, in whatever process it is executed, only if every run and '
+                     'repetition builds its own model and the results of a sweep are attributed to their runs independently of worker timing',
                      only=lambda o: any(k in o.key for k in keep))
